@@ -13,7 +13,7 @@ from . import oracles as O
 from .pipe_common import PipeShape, base_config, add_constants, render, evaluate
 
 ID = 'C11'
-BUDGET_S = {'quick': 150, 'thorough': 1800}
+BUDGET_S = {'quick': 150, 'thorough': 3600}
 SHAPE_WALL_S = {'quick': 60, 'thorough': 400}
 FAMILY = ('PIPE: `.org v0 / pre: .byte 17 / <directives> / tail: .byte 238`, window start = v0; directive x width x '
           'endianness x list length <= 4 x operand forms (symbol, expression, negative, forward/backward label); '
@@ -206,7 +206,7 @@ def shapes(tier, seed):
         lambda: ('&', V('v1'), ('c', 0xff0)),
         lambda: ('*', V('v2'), ('c', 3)),
     ]
-    n_each = 6 if tier == 'quick' else 40
+    n_each = 6 if tier == 'quick' else 120
     for d in DATA_W:
         for en in ('big', 'little'):
             big = d == '.8byte'
@@ -219,7 +219,7 @@ def shapes(tier, seed):
                 out.append(make(f'data:{d}:{en}:{i}', [('data', d, vals)], en,
                                 {'v1': (-lim, lim), 'v2': (-lim2, lim2)}, width=96 if big else 48))
     # two directives in a row (layout between them), mixed widths
-    for i in range(4 if tier == 'quick' else 40):
+    for i in range(4 if tier == 'quick' else 150):
         d1, d2 = rnd.choice(list(DATA_W)[:3]), rnd.choice(list(DATA_W)[:3])
         out.append(make(f'data2:{i}', [('data', d1, [rnd.choice(forms)() for _ in range(rnd.randint(1, 3))]),
                                        ('data', d2, [rnd.choice(forms)(), ('lbl', 'L0')])],
